@@ -333,6 +333,11 @@ namespace pika::threads::detail {
                         if (PIKA_LIKELY(thrd_stat.is_valid() &&
                                 thrd_stat.get_previous() == thread_schedule_state::pending))
                         {
+                            // Record the worker at the start of every phase (not only when the
+                            // thread yields): a wake-up that is issued while the thread is still
+                            // running its first phase reads this number for its scheduling hint.
+                            get_thread_id_data(thrd)->set_last_worker_thread_num(num_thread);
+
                             write_state_log(scheduler, num_thread, thrd, thrd_stat.get_previous(),
                                 thread_schedule_state::active);
 
